@@ -190,9 +190,9 @@ class FindGlobalPeaks(_GBase):
     props = ("C07", "C12", "C02")
     # "integralP@SxC": integral refinement, patch size P, a batch of S samples x C channels
     cases = ("none", "integral5@1x1", "integral5@1x2", "integral3@2x1", "integral2@1x1")
-    thorough_cases = cases + ("integral5@2x2", "integral1@1x1", "integral3@1x1", "integral7@1x1")
-    bounded = ("find_global_peaks(refinement='integral') is verified for concrete batch x channel counts (quick: 1x1, 1x2, 2x1; thorough: up to 2x2) and unrolled patch sizes "
-               "(quick 2,3,5; thorough 1,2,3,5,7); map height/width, cell values and the threshold stay symbolic.  With symbolic batch/channel counts the "
+    thorough_cases = cases + ("integral1@1x1", "integral3@1x1", "integral3@1x2")
+    bounded = ("find_global_peaks(refinement='integral') is verified for concrete batch x channel counts (1x1, 1x2, 2x1; for 2x2 both solvers return unknown within budget) and unrolled patch sizes "
+               "(quick 2,3,5; thorough adds 1; for 7 the solvers' verdict is unstable within budget, not claimed); map height/width, cell values and the threshold stay symbolic.  With symbolic batch/channel counts the "
                "same obligations are generated but z3/cvc5 return unknown (index bounds through the (S*C) flattening), so that case is not claimed",)
     not_decided = ("integral refinement with even patch sizes other than 2 (half-pixel crop boxes: for size 4 the bound obligation is generated but both solvers return unknown)",
                    "'on a Gaussian bump the refinement moves the estimate toward the true sub-pixel centre' (analytic fact about sampled Gaussians; "
